@@ -290,6 +290,9 @@ func genScenario(r *Rng, pf pipeProfile) PScn {
 		p := PPkg{Dir: fmt.Sprintf("p%d", k-1-i)} // directories in descending order as well
 		p.PkgTags = Pick(r, pipeTagMenu)
 		nt := 1 + r.Intn(4)
+		if r.Chance(8) {
+			nt = 0 // a package that declares no type at all (functions and variables only; what earlier runs left is still stale)
+		}
 		used := map[string]bool{}
 		for _, name := range names[4-nt:] {
 			kind := Pick(r, []string{"n", "n", "s", "g", "i", "a"})
